@@ -1,4 +1,4 @@
-\* C20: quick: every case on <= 3 modules (self-dependencies allowed, module_depends() calls in name order, every listing, optionally one module without a shared object); every hook profile (which modules lack module_post_init / module_destructor) for the GOOD cases, all hooks for the others (Python draws profiles for a sample of those)
+\* C20: quick: every case on <= 3 modules (self-dependencies allowed, module_depends() calls in name order, every listing, optionally one module without a shared object); for the GOOD cases the hook profiles <<S, S>> and <<S, complement of S>> (S = modules lacking module_post_init, second component = modules lacking module_destructor), all hooks for the others (Python draws profiles for a sample of those)
 SPECIFICATION Spec
 CONSTANTS
     Source = "enum"
@@ -7,7 +7,7 @@ CONSTANTS
     DepOrders = "asc"
     WithMissing = TRUE
     WithAnti = FALSE
-    Profiles = "good"
+    Profiles = "goodpaired"
     Bug = "none"
 INVARIANTS
     TypeOK RdependsMirrorsDepends SetEmptyAtExit NoGhostInGoodCase
